@@ -250,6 +250,7 @@ def ob_e(ob):
                         lab = "e:done=%s molecule %d root %d" % (done, b, r)
                         v, m = smt.prove(z3.And(ev[b, r] >= 0, ev[b, r] * ev[b, r] == L[j, zp[b] + r]), base, lab, "nra", 60)
                         if v == "sat":
+                            R.make_sqrt_mat, torch.linalg.eigh = saved  # the replay runs the unstubbed function
                             if replay_rpa_root_selection(list(done), zp):
                                 ob.violation("rpa_subspace_eig with converged pattern %s: molecule %d does not receive the lowest roots above its own zero padding (roots skipped or zero 'states' returned; RPA can then exceed CIS and depend on batch order)" % (done, b), {"module": "harness.C16", "func": "replay_rpa_root_selection", "args": {"done": list(done), "zero_pad": zp}})
                                 return
